@@ -81,8 +81,43 @@ def mpdFloatOp (j : Json) : Except String Json := do
   let r := mpd a.size φ v01 v11
   pure (Json.mkObj [("bits", (r.toBits.toNat : Nat))])
 
+def obitsToJson : Option Float → Json
+  | none => Json.null
+  | some x => Json.mkObj [("bits", (x.toBits.toNat : Nat))]
+
+/-- `mpd?` over IEEE doubles with the recorded direction: `null` = NaN (`0/0`) -/
+def mpdOptFloatOp (j : Json) : Except String Json := do
+  let a ← arrOf (arrOf floatOfBits) (← field j "phi")
+  let v01 ← floatOfBits (← field j "v01")
+  let v11 ← floatOfBits (← field j "v11")
+  let φ : Nat → Cx Float := fun k => ⟨(a[k]!)[0]!, (a[k]!)[1]!⟩
+  pure (Json.mkObj [("mpd", obitsToJson (mpd? a.size φ v01 v11))])
+
+/-- the whole of `gen.MPD` over IEEE doubles, nothing recorded: Gram matrix, closed-form minor
+    direction (`Sym2.minorDir`), `mpd?`.  Also returns the direction and the two eigenvalues of
+    the Gram matrix (squares of the singular values). -/
+def mpdClosedFloatOp (j : Json) : Except String Json := do
+  let a ← arrOf (arrOf floatOfBits) (← field j "phi")
+  let φ : Nat → Cx Float := fun k => ⟨(a[k]!)[0]!, (a[k]!)[1]!⟩
+  let G := gram2 a.size φ
+  let v := G.minorDir
+  let l := G.eigvals Float.sqrt
+  pure (Json.mkObj [("mpd", obitsToJson (mpdClosed? a.size φ)),
+    ("v01", (v.1.toBits.toNat : Nat)), ("v11", (v.2.toBits.toNat : Nat)),
+    ("l0", (l.1.toBits.toNat : Nat)), ("l1", (l.2.toBits.toNat : Nat))])
+
+/-- `Sym2.eigvals` over IEEE doubles: the closed form of `np.linalg.eigvals([[a,b],[b,d]])` -/
+def eigvalsFloatOp (j : Json) : Except String Json := do
+  let a ← floatOfBits (← field j "a")
+  let b ← floatOfBits (← field j "b")
+  let d ← floatOfBits (← field j "d")
+  let l := (⟨a, b, d⟩ : Sym2 Float).eigvals Float.sqrt
+  pure (Json.mkObj [("l0", (l.1.toBits.toNat : Nat)), ("l1", (l.2.toBits.toNat : Nat))])
+
 def ops : List (String × (Json → Except String Json)) :=
   [("c18_mac", macOp), ("c18_msf", msfOp), ("c18_mcf", mcfOp), ("c18_mpc", mpcOp),
-   ("c18_mpd_argsq", mpdArgOp), ("c18_mpd_float", mpdFloatOp)]
+   ("c18_mpd_argsq", mpdArgOp), ("c18_mpd_float", mpdFloatOp),
+   ("c18_mpd_opt_float", mpdOptFloatOp), ("c18_mpd_closed_float", mpdClosedFloatOp),
+   ("c18_eigvals_float", eigvalsFloatOp)]
 
 end PV.Ops.C18
